@@ -16,5 +16,23 @@
 #[path = "../../common/shim.rs"]
 pub mod kani;
 
+#[path = "../../common/geo.rs"]
+pub mod geo;
+
+#[path = "../../common/rules.rs"]
+pub mod rules;
+#[cfg(any(kani, replay))]
+#[path = "../../common/sym.rs"]
+pub mod sym;
+#[cfg(any(kani, replay))]
+#[path = "../../common/stubs.rs"]
+pub mod stubs;
+
+#[cfg(all(any(kani, replay), feature = "c02"))]
+mod c02;
+#[cfg(all(any(kani, replay), feature = "c09"))]
+mod c09;
+#[cfg(all(any(kani, replay), feature = "c09"))]
+mod gen_tables;
 #[cfg(all(any(kani, replay), feature = "c20"))]
 mod c20;
